@@ -401,6 +401,24 @@ impl<L: Lay> LaySut<L> {
             if self.contains(id) != self.model.contains(&id) {
                 return Err(format!("contains({id}) = {}, reference {}", self.contains(id), self.model.contains(&id)));
             }
+            // hash-directed iteration must stay inside the table and yield live, intact elements
+            if let C::Table(t) = &self.c {
+                let mut n = 0;
+                for e in t.iter_hash(plan_hash(id)) {
+                    n += 1;
+                    if n > self.model.len() + 4 {
+                        return Err(format!("iter_hash of key {id} yields more elements than the table holds"));
+                    }
+                    if !e.intact() || !self.model.contains(&e.id()) {
+                        return Err(format!("iter_hash of key {id} yielded an element that is not a stored, intact element (id {})", e.id()));
+                    }
+                    if let Some(s) = e.serial() {
+                        if !env::reg_is_live(s) {
+                            return Err(format!("iter_hash of key {id} yielded element #{s} which is not live"));
+                        }
+                    }
+                }
+            }
         }
         // the block must satisfy the alignment the layout demands
         if !d.is_singleton {
